@@ -56,6 +56,31 @@ class PathState:
         return {'heap': dict(self.heap), 'ghost': dict(self.ghost), 'ctx': dict(self.ctx), 'env': dict(self.env), 'now': self.now}
 
 
+_QCACHE: dict[int, bool] = {}
+
+
+def _has_quantifier(e) -> bool:
+    k = e.get_id()
+    r = _QCACHE.get(k)
+    if r is not None:
+        return r
+    seen = set()
+    stack = [e]
+    found = False
+    while stack:
+        x = stack.pop()
+        i = x.get_id()
+        if i in seen:
+            continue
+        seen.add(i)
+        if z3.is_quantifier(x):
+            found = True
+            break
+        stack.extend(x.children())
+    _QCACHE[k] = found
+    return found
+
+
 class Chooser:
     """Depth-first enumeration of paths by re-execution: a path is identified by its list of decisions."""
 
@@ -86,14 +111,18 @@ class Chooser:
         return len(self.taken) >= len(self.prefix)
 
     def feasible(self, pc, extra) -> bool:
+        """Pruning only: quantified assumptions are left out (fewer constraints can only keep more paths), so an
+        infeasible path that needs them is explored and its obligations hold vacuously."""
         self.feas_checks += 1
         s = z3.Solver()
         s.set('timeout', self.feas_timeout_ms)
         for a in self.axioms:
             s.add(a)
         for p in pc:
-            s.add(p)
-        s.add(extra)
+            if not _has_quantifier(p):
+                s.add(p)
+        if not _has_quantifier(extra):
+            s.add(extra)
         return s.check() != z3.unsat
 
     def choose(self, st: PathState, options: list, label: str) -> int:
